@@ -46,6 +46,15 @@ class Builtins:
     def map_iter(self, m: VVal, what: str, st: State) -> VIter:
         th = self.th
         t = m.term
+        if z3.is_app(t) and t.decl().kind() != z3.Z3_OP_UNINTERPRETED:
+            # interpreted head (ite, ...) cannot occur in a trigger: name the value
+            key0 = 'alias:' + str(t.get_id())
+            al = self.alias_cache.get(key0)
+            if al is None:
+                al = th.fresh('mapv')
+                self.alias_cache[key0] = al
+            st.add(al == t)
+            t = al
         i = z3.Int('i!mk')
         k = z3.Const('k!mk', th.Val)
         key = f'mapiter:{t}'
@@ -996,6 +1005,11 @@ class Builtins:
             return [(VBool(th.fn('val_lt', th.Val, th.Val, th.B)(V(0), V(1))), st)]
         if name == 'card':
             return self.bi_len(args, kwargs, st, node)
+        if name == 'methv':
+            return [(self.mkval(th.fn('methv_' + args[0].py[1], th.Val, th.Val, th.Val, th.Val)(V(1), V(2), V(3)),
+                                self.shape_of('.' + args[0].py[1] + '()')), st)]
+        if name == 'getattr':
+            return self.bi_getattr(args, kwargs, st, node)
         if name == 'hash_of':
             return [(VVal(th.fn('hash_of', th.Val, th.Val)(V(0)), kind='int'), st)]
         if name == 'fnref':
